@@ -170,14 +170,12 @@ async fn scenario(w: World, p: P) -> Out {
     let sim = w.sim.clone();
     let log: Log = Arc::new(Mutex::new(Vec::new()));
     let sh = sim.sh.clone();
-    let odm = [StatusKind::OfferedDeadlineMissed];
     let mask_for = |lvl: u8, want: Option<u8>, m: &'static [StatusKind]| -> &'static [StatusKind] {
         if want == Some(lvl) { m } else { NO_STATUS }
     };
     static ODM: [StatusKind; 1] = [StatusKind::OfferedDeadlineMissed];
     static RDM: [StatusKind; 1] = [StatusKind::RequestedDeadlineMissed];
     static RDM_DA: [StatusKind; 2] = [StatusKind::RequestedDeadlineMissed, StatusKind::DataAvailable];
-    let _ = odm;
     let lst = |lvl: u8, want: Option<u8>, side: u8| -> Option<Rec> {
         if want == Some(lvl) { Some(Rec::new(&log, &sh, lvl, side)) } else { None }
     };
@@ -526,7 +524,7 @@ fn evaluate_side(rep: &mut Report, s: &Side, replay: &Json, fired: &mut Vec<Stri
     (max_total as i64, max_upper)
 }
 
-fn evaluate(rep: &mut Report, p: &P, o: &Out, replay: &Json, poll_hash: u64, case: u64) {
+fn evaluate(rep: &mut Report, p: &P, o: &Out, replay: &Json, poll_hash: u64, case: u64, selftest: bool) {
     let lag = 50 * MS + 2 * p.jitter + MS;
     if o.writes.iter().any(|w| !w.ok) {
         rep.stat("cases_skipped_write_failed", 1);
@@ -570,6 +568,8 @@ fn evaluate(rep: &mut Report, p: &P, o: &Out, replay: &Json, poll_hash: u64, cas
                         .iter()
                         .any(|c| c.kind == StatusKind::OfferedDeadlineMissed && c.total > prev_total && c.total <= x.total);
                 let cond_ok = cond_enabled && x.gtv == Some(true);
+                // --selftest-unsignalled: oracle self-test, pretend that nothing signalled the increase
+                let (lst_ok, cond_ok) = if selftest { (false, false) } else { (lst_ok, cond_ok) };
                 if p.w_lst.is_some() && cond_enabled && (lst_ok != cond_ok) {
                     rep.stat("increase_signalled_by_only_one_of_listener_and_condition", 1);
                 }
@@ -721,7 +721,7 @@ pub fn run(shard: &Shard) -> Report {
                 eprintln!("  cb    at {:.3} ms {} level={} total={} change={}", ms(c.t), kind_name(c.kind), c.level, c.total, c.change);
             }
         }
-        evaluate(&mut rep, &p, &o, &replay, stats.poll_hash, case);
+        evaluate(&mut rep, &p, &o, &replay, stats.poll_hash, case, shard.args.has("selftest-unsignalled"));
     }
     rep
 }
